@@ -81,6 +81,13 @@ fn ends_line(ctx: &Context, pos: SourcePos) -> bool {
     .all(char::is_whitespace)
 }
 
+/// Whether the statement that ends at `pos` is closed by a semicolon.
+fn has_semicolon(ctx: &Context, pos: SourcePos) -> bool {
+  let text_info = ctx.text_info();
+  let index = pos.as_byte_index(text_info.range().start);
+  text_info.text_str()[..index].ends_with(';')
+}
+
 /// The statement that brings `process` into scope: an `import` declaration,
 /// or a `require` call in a CommonJS file (where `import` declarations are a
 /// syntax error).
@@ -104,8 +111,10 @@ impl NoProcessGlobalHandler {
         // away from a `deno-lint-ignore` directive above it.
         let leading = if ends_line(ctx, range.end()) {
           "\n"
-        } else {
+        } else if has_semicolon(ctx, range.end()) {
           " "
+        } else {
+          "; "
         };
         (SourceRange::new(range.end(), range.end()), leading, "")
       } else {
